@@ -11,6 +11,7 @@ CHECKS = {
     "C12": textfam.check_c12,
     "C15": textfam.check_c15,
     "C16": enginefam.check_c16,
+    "C17": textfam.check_c17,
     "C18": tablefam.check,
     "C19": textfam.check_c19,
 }
